@@ -18,5 +18,5 @@ def run(project, rep):
     rep.run(H.h_rules, project, rep)
     rep.run(H.b_r9_quote_backrefs, project, rep)
     # "header fields equal to those in the file": each constructor parameter is stored under its own name, from its
-    # own parameter, as given (B-R2; the rest of the B family is C12's)
-    rep.run_only(("B-R2",), H.b_rules, project, rep)
+    # own parameter, as given (B-R2), the validators are the declared ones - any three-digit version, UIDs up to 36 characters (B-R4) - and the patterns admit every header the validators do, the whole UID alphabet included (B-R6); the rest of the B family is C12's
+    rep.run_only(("B-R2", "B-R4", "B-R6"), H.b_rules, project, rep)
